@@ -1012,13 +1012,14 @@ namespace BitSerializer::Convert::Utf
 			assert(mStartDataPtr <= mEndDataPtr);
 			if (mInputStream.eof())
 			{
-				// Handle uncompleted sequence at the end of file
-				if (result.ErrorCode == UtfEncodingErrorCode::UnexpectedEnd && Detail::HandleEncodingError(outStr, mEncodingErrorPolicy, mErrorMark))
+				// Handle uncompleted sequence at the end of file (including a cropped code unit of UTF-16/32)
+				const bool isCroppedCodeUnit = result.ErrorCode == UtfEncodingErrorCode::Success && mStartDataPtr != mEndDataPtr;
+				if ((result.ErrorCode == UtfEncodingErrorCode::UnexpectedEnd || isCroppedCodeUnit) && Detail::HandleEncodingError(outStr, mEncodingErrorPolicy, mErrorMark))
 				{
 					mStartDataPtr = mEndDataPtr = mEncodedBuffer;
 					return EncodedStreamReadResult::Success;
 				}
-				return result.ErrorCode == UtfEncodingErrorCode::Success ? EncodedStreamReadResult::Success : EncodedStreamReadResult::DecodeError;
+				return (result.ErrorCode == UtfEncodingErrorCode::Success && !isCroppedCodeUnit) ? EncodedStreamReadResult::Success : EncodedStreamReadResult::DecodeError;
 			}
 			// Ignore error code `UnexpectedEnd` if it's not end of file
 			return result.ErrorCode == UtfEncodingErrorCode::Success || result.ErrorCode == UtfEncodingErrorCode::UnexpectedEnd ? EncodedStreamReadResult::Success : EncodedStreamReadResult::DecodeError;
